@@ -91,6 +91,9 @@ def run(e: Engine, rep: Report):
     n9(e, rep)
     n10(e, rep)
     n11(e, rep)
+    n12(e, rep)
+    n13(e, rep)
+    n14(e, rep)
     rep.floor('N1', 9, 'relay implementations / set sites')
     rep.floor('N2', 12, 'client command sites')
 
@@ -1652,3 +1655,276 @@ def n11(e: Engine, rep: Report, rule: str = 'N11'):
                 'retries a message that can never be delivered, instead of '
                 'bouncing it' % (n.text(50), t), loc=n.loc(),
                 witness=dataflow.render_path(pth, 12) if pth else None)
+
+
+# -------------------------------------------------------------------- N12
+def n12(e: Engine, rep: Report, rule: str = 'N12'):
+    """A per-recipient table may hold error objects (that is what it is
+    for).  An attempt() that takes one entry out of a table it got from
+    another attempt() / an AsyncResult and returns it hands the queue a
+    bare error object as the result of the whole attempt - read as
+    "delivered"."""
+    rep.rule(rule, 'no attempt() returns an entry taken out of a '
+             'per-recipient table it received (values() / items() / '
+             '[key] / get / pop of what another attempt() or '
+             'AsyncResult.get() returned): an entry may be an error '
+             'object')
+    n = 0
+    for cq in e.concrete_classes(RELAY):
+        if cq == RELAY:
+            continue
+        ctx = e.method_ctx(cq, 'attempt')
+        g = e.build(ctx, raises=lambda b, nn, r: set(),
+                    inline=e.inline_same_self(), max_depth=3)
+        where = '%s[%s]' % (ctx.func.qname, cq.rpartition('.')[2])
+        rep.functions.add(ctx.func.qname)
+
+        def received(x, fr):
+            x, fr = common.origin(g, x, fr)
+            if not (isinstance(x, ast.Call) and
+                    isinstance(x.func, ast.Attribute)):
+                return False
+            if x.func.attr == 'attempt':
+                return True
+            return x.func.attr == 'get' and len(x.args) <= 1 and \
+                'result' in ast.unparse(x.func.value).lower()
+
+        def table_of(x, fr, depth=0):
+            """(mapping expression, frame) the value is an entry of"""
+            if depth > 6:
+                return None
+            if isinstance(x, ast.Name):
+                fn = fr.ctx.func
+                for st in walk_own(fn.node):
+                    if isinstance(st, (ast.For, ast.comprehension)) and any(
+                            isinstance(t, ast.Name) and t.id == x.id
+                            for t in ast.walk(st.target)):
+                        it = st.iter
+                        if isinstance(it, ast.Call) and \
+                                isinstance(it.func, ast.Attribute) and \
+                                it.func.attr in ('values', 'items'):
+                            return it.func.value, fr
+                x2, f2 = common.origin(g, x, fr)
+                if x2 is not x:
+                    return table_of(x2, f2, depth + 1)
+                return None
+            if isinstance(x, ast.Subscript):
+                v = x.value
+                if isinstance(v, ast.Call) and isinstance(v.func, ast.Name) \
+                        and v.func.id in ('list', 'tuple', 'sorted') and \
+                        v.args:
+                    return table_of_iter(v.args[0], fr)
+                if isinstance(x.slice, ast.Slice):
+                    return None
+                return v, fr
+            if isinstance(x, ast.Call):
+                f = x.func
+                if isinstance(f, ast.Attribute) and f.attr in (
+                        'pop', 'popitem', 'setdefault') or (
+                        isinstance(f, ast.Attribute) and f.attr == 'get'
+                        and len(x.args) >= 1 and
+                        'result' not in ast.unparse(f.value).lower()):
+                    return f.value, fr
+                if isinstance(f, ast.Name) and f.id == 'next' and x.args:
+                    a = x.args[0]
+                    if isinstance(a, ast.Call) and \
+                            isinstance(a.func, ast.Name) and \
+                            a.func.id == 'iter' and a.args:
+                        a = a.args[0]
+                    return table_of_iter(a, fr)
+            return None
+
+        def table_of_iter(it, fr):
+            if isinstance(it, ast.Call) and \
+                    isinstance(it.func, ast.Attribute) and \
+                    it.func.attr in ('values', 'items'):
+                return it.func.value, fr
+            return None
+        rets = [r for r in g.of_kind('stmt') if isinstance(r.ast, ast.Return)
+                and r.frame is g.entry.frame and r.ast.value is not None]
+        for r in rets:
+            for v, fr in common.values_of(g, r.ast.value, r.frame):
+                n += 1
+                rep.evaluations += 1
+                t = table_of(v, fr)
+                bad = t is not None and received(t[0], t[1])
+                rep.check(not bad, rule, where,
+                          'returned `%s`' % ' '.join(
+                              ast.unparse(v).split())[:40],
+                          'attempt() returns `%s`, an entry of the table '
+                          '`%s` it received: for a recipient the next hop '
+                          'refused the entry is an error OBJECT, which the '
+                          'queue takes for a delivered message'
+                          % (ast.unparse(v), ast.unparse(t[0]) if t
+                             else ''), loc=r.loc(),
+                          reason='not an entry of a received table')
+    if n < 3:
+        rep.error('anchor vanished: attempt() return values (%d < 3)' % n)
+
+
+# -------------------------------------------------------------------- N13
+SAME_LENGTH = {'sorted', 'list', 'tuple', 'reversed'}
+
+
+def n13(e: Engine, rep: Report, rule: str = 'N13'):
+    """`i = n % len(A)` is an index into A.  Used on another sequence it is
+    an IndexError - not a relay error - as soon as that one is shorter."""
+    rep.rule(rule, 'in the relay modules an index reduced modulo len(A) '
+             'indexes A itself (or a same-length copy: sorted / list / '
+             'tuple of A), not a sequence filtered or de-duplicated from '
+             'it: attempt() never ends in an IndexError')
+    n = 0
+    for f in e.p.functions.values():
+        if not f.module.name.startswith('slimta.relay'):
+            continue
+        mods = {}
+        for a in walk_own(f.node):
+            if isinstance(a, ast.Assign) and len(a.targets) == 1 and \
+                    isinstance(a.targets[0], ast.Name) and \
+                    isinstance(a.value, ast.BinOp) and \
+                    isinstance(a.value.op, ast.Mod) and \
+                    isinstance(a.value.right, ast.Call) and \
+                    isinstance(a.value.right.func, ast.Name) and \
+                    a.value.right.func.id == 'len' and a.value.right.args:
+                mods[a.targets[0].id] = a.value.right.args[0]
+        for x in walk_own(f.node):
+            if not isinstance(x, ast.Subscript):
+                continue
+            idx = x.slice
+            of = None
+            if isinstance(idx, ast.Name) and idx.id in mods:
+                of = mods[idx.id]
+            elif isinstance(idx, ast.BinOp) and isinstance(idx.op, ast.Mod) \
+                    and isinstance(idx.right, ast.Call) and \
+                    isinstance(idx.right.func, ast.Name) and \
+                    idx.right.func.id == 'len' and idx.right.args:
+                of = idx.right.args[0]
+            if of is None:
+                continue
+            n += 1
+            rep.evaluations += 1
+            rep.functions.add(f.qname)
+            seq = x.value
+            same = ast.unparse(seq) == ast.unparse(of)
+            why = None
+            if not same and isinstance(seq, ast.Name):
+                defs = [a for a in walk_own(f.node)
+                        if isinstance(a, ast.Assign) and any(
+                            isinstance(t, ast.Name) and t.id == seq.id
+                            for t in a.targets)]
+                if len(defs) == 1:
+                    v = defs[0].value
+                    if isinstance(v, ast.Call) and \
+                            isinstance(v.func, ast.Name) and \
+                            v.func.id in SAME_LENGTH and v.args and \
+                            ast.unparse(v.args[0]) == ast.unparse(of):
+                        same = True
+                    elif isinstance(v, (ast.List, ast.ListComp, ast.Call,
+                                        ast.SetComp, ast.Set)):
+                        why = 'built separately (`%s`)' % ' '.join(
+                            ast.unparse(v).split())[:40]
+            if same:
+                rep.ok(rule, f.qname, '`%s`' % ast.unparse(x), loc=f.loc(x),
+                       reason='index reduced modulo the length of the '
+                       'sequence it indexes')
+            elif why:
+                rep.bad(rule, f.qname, '`%s`' % ast.unparse(x),
+                        'the index is reduced modulo len(%s) but used on '
+                        '`%s`, which is %s and can be shorter: the attempt '
+                        'ends in an IndexError instead of a result or a '
+                        'relay error' % (ast.unparse(of), ast.unparse(seq),
+                                         why), loc=f.loc(x))
+            else:
+                rep.unknown(rule, f.qname, '`%s`' % ast.unparse(x),
+                            'cannot see that `%s` is as long as `%s`' % (
+                                ast.unparse(seq), ast.unparse(of)),
+                            loc=f.loc(x))
+    if n < 1:
+        rep.ok(rule, 'slimta.relay', 'no index reduced modulo a length',
+               reason='nothing to check', nontrivial=False)
+
+
+# -------------------------------------------------------------------- N14
+def n14(e: Engine, rep: Report, rule: str = 'N14'):
+    """One relay error for the whole envelope gives every recipient the same
+    class.  Made from ONE entry of a collection of per-recipient replies it
+    reports the others' 4xx as permanent (or their 5xx as transient)."""
+    rep.rule(rule, 'a whole-envelope failure (raise / set_exception) is not '
+             'made from one fixed entry of a collection of per-recipient '
+             'replies: each recipient keeps the class of its own reply')
+    n = 0
+    seen = set()
+    for cq in e.concrete_classes(SMTPC):
+        for k in e.p.mro(cq):
+            kc = e.p.classes.get(k)
+            if kc is None or not k.startswith('slimta.relay'):
+                continue
+            for mname, m in sorted(kc.methods.items()):
+                if m.qname in seen:
+                    continue
+                seen.add(m.qname)
+                n += _n14_function(e, rep, rule, m)
+    if n < 2:
+        rep.error('anchor vanished: whole-envelope failure sites (%d < 2)'
+                  % n)
+
+
+def _n14_function(e, rep, rule, m):
+    fn = m.node
+    n = 0
+    loops = {ast.unparse(st.iter) for st in walk_own(fn)
+             if isinstance(st, (ast.For, ast.comprehension))}
+
+    def single_def(name):
+        ds = [a for a in walk_own(fn) if isinstance(a, ast.Assign) and any(
+            isinstance(t, ast.Name) and t.id == name for t in a.targets)]
+        return ds[0].value if len(ds) == 1 else None
+
+    def per_recipient(y):
+        """is the collection one of per-recipient replies?"""
+        if ast.unparse(y) in loops or any(
+                l.startswith(ast.unparse(y) + '.') for l in loops):
+            return True
+        if isinstance(y, ast.Name):
+            v = single_def(y.id)
+            if isinstance(v, (ast.ListComp, ast.GeneratorExp)):
+                txt = ' '.join(ast.unparse(g.iter) for g in v.generators)
+                return 'recipients' in txt or 'values()' in txt or \
+                    'items()' in txt or 'rcpt' in txt
+        return False
+    sites = []
+    for x in walk_own(fn):
+        if isinstance(x, ast.Raise) and x.exc is not None:
+            sites.append((x, x.exc))
+        elif isinstance(x, ast.Call) and isinstance(x.func, ast.Attribute) \
+                and x.func.attr == 'set_exception' and x.args:
+            sites.append((x, x.args[0]))
+    for site, arg in sites:
+        n += 1
+        rep.evaluations += 1
+        rep.functions.add(m.qname)
+        # factory(<reply>) / the value itself, through one local
+        if isinstance(arg, ast.Name):
+            arg = single_def(arg.id) or arg
+        if isinstance(arg, ast.Call) and isinstance(arg.func, ast.Attribute) \
+                and arg.func.attr == 'factory' and arg.args:
+            arg = arg.args[0]
+        if isinstance(arg, ast.Name):
+            arg = single_def(arg.id) or arg
+        one = isinstance(arg, ast.Subscript) and \
+            isinstance(arg.slice, (ast.Constant, ast.UnaryOp)) and \
+            per_recipient(arg.value)
+        rep.check(not one, rule, m.qname,
+                  'failure made from `%s`' % ' '.join(
+                      ast.unparse(arg).split())[:40],
+                  'the failure of the whole envelope is made from `%s`, one '
+                  'fixed entry of the per-recipient replies `%s`: when the '
+                  'recipients were refused with different classes (550 and '
+                  '450) all of them are reported with the class of that one '
+                  '- a 4xx outcome is bounced as permanent, or a 5xx one '
+                  'retried as transient' % (
+                      ast.unparse(arg), ast.unparse(arg.value)
+                      if isinstance(arg, ast.Subscript) else ''),
+                  loc=m.loc(site), reason='not a fixed entry of a '
+                  'collection of per-recipient replies')
+    return n
